@@ -30,6 +30,7 @@ KINDS = {
     "enum": ([("", EN, None)], [[0, 1, 7]]),
     "flt": ([("", FLOATS["float"], None)], [[0.0, 1.5, -0.0]]),
     "bits": ([("a", INTS["uint8"], 4), ("b", INTS["uint8"], 4)], [[0, 5, 15], [0, 15, 1]]),
+    "cbits": ([("a", CHAR, 4), ("b", CHAR, 4)], [[0, 5, 15], [0, 15, 1]]),  # bit-fields over a char storage unit (read as integers)
     "anon": ([("", "ANON", None)], [[{"p": 0, "q": 0}, {"p": 3, "q": 4}, {"p": 0, "q": 9}]]),
     "ptr": ([("", TPtr(INTS["uint8"]), None)], [[0, 8, 1]]),
     "arrs": ([("", TArr(NT, 2), None)], [[[{"x": 0, "y": 0}, {"x": 0, "y": 0}], [{"x": 1, "y": 2}, {"x": 3, "y": 4}], [{"x": 0, "y": 0}, {"x": 0, "y": 9}]]]),
@@ -429,7 +430,7 @@ def jobs(tier):
     kmax = 4
     seqs = []
     for k in range(0, kmax + 1):
-        mid = ["u8", "c2", "nest", "enum", "bits", "anon", "un", "arrs", "uns"]
+        mid = ["u8", "c2", "nest", "enum", "bits", "anon", "un", "arrs", "uns", "cbits"]
         if tier == "thorough":
             pool = KIND_LIST if k <= 3 else mid
         else:
